@@ -125,6 +125,15 @@ def harnesses(tier):
                        units=[dict(src=unit, cflags=['-Dexit=verif_exit', '-Dfprintf=verif_fprintf'], remove=trees), 'repo:token.c', 'repo:stack.c', 'repo:object_pool.c', 'repo:char.c', 'common/ds_null.c'],
                        nobody_ok='*', ignore_failed=['precondition_instance', 'no-body'], unwinding_assertions=False, object_bits=12, timeout=1500, mem_gb=8, functional=True, replay=False,
                        desc='%s: no published token kind reaches the unknown-token escape or exit()' % fn))
+    # beamer / memoir handle a few kinds themselves and hand everything else to the LaTeX writer: both units are linked, all four tree walkers are stubs
+    lt = ['mmd_export_token_tree_latex', 'mmd_export_token_tree_latex_raw', 'mmd_export_token_tree_latex_tt']
+    for nm, unit, fn, own in (('beamer', 'repo:beamer.c', 'mmd_export_token_beamer', 'mmd_export_token_tree_beamer'), ('memoir', 'repo:memoir.c', 'mmd_export_token_memoir', 'mmd_export_token_tree_memoir')):
+        d = dict(EXPORT=fn, TREE1=own, TREE2=lt[0], TREE3=lt[1], TREE4=lt[2], DS_CAP=8)
+        hs.append(dict(name='c02_dispatch_' + nm, src='c02/dispatch.c', defs=d, prepare=gen_dispatch, pool_off=True,
+                       units=[dict(src=unit, cflags=['-Dexit=verif_exit', '-Dfprintf=verif_fprintf'], remove=[own]), dict(src='repo:latex.c', cflags=['-Dexit=verif_exit', '-Dfprintf=verif_fprintf'], remove=lt),
+                              'repo:token.c', 'repo:stack.c', 'repo:object_pool.c', 'repo:char.c', 'common/ds_null.c'],
+                       nobody_ok='*', ignore_failed=['precondition_instance', 'no-body'], unwinding_assertions=False, object_bits=12, timeout=1500, mem_gb=8, functional=True, replay=False,
+                       desc='%s (+ the LaTeX writer it delegates to): no published token kind reaches the unknown-token escape or exit()' % fn))
     hs.append(dict(name='c02_tokenize_lines', src='c15/toklines.c', defs=dict(SPAN=2), pool_off=True,
                    units=[dict(src='repo:mmd.c', remove=['mmd_assign_line_type']), 'repo:token.c', 'repo:object_pool.c', 'repo:stack.c', 'repo:char.c'],
                    unwind=6, timeout=900, mem_gb=8, functional=True,
